@@ -877,11 +877,26 @@ func (p *provEngine) elemOf(v ssa.Value, depth int, seen map[ssa.Value]bool) (sr
 			nilPossible = nilPossible || n
 		}
 		return
+	case *ssa.Extract:
+		// one result of a multi-value helper: (endpoint, count) := leastLoaded(candidates, stats)
+		if call, ok := x.Tuple.(*ssa.Call); ok {
+			return p.elemOfCallResult(call, x.Index, depth)
+		}
 	case *ssa.Call:
+		return p.elemOfCallResult(x, 0, depth)
+	}
+	return nil, false, "returned endpoint is not an element of a slice: " + strings.TrimSpace(v.String())
+}
+
+// elemOfCallResult: result idx of a call of a repo function is an element of one of the callee's slice parameters → of
+// the corresponding argument.
+func (p *provEngine) elemOfCallResult(x *ssa.Call, idx int, depth int) (srcs []ssa.Value, nilPossible bool, unknown string) {
+	v := ssa.Value(x)
+	{
 		if sc := x.Call.StaticCallee(); sc != nil && p.c.inRepo(sc) {
 			// callee returns an element of one of its slice parameters?
 			for _, ret := range returnsOf(sc) {
-				s, n, u := p.elemOf(retResult(ret, 0), depth-1, map[ssa.Value]bool{})
+				s, n, u := p.elemOf(retResult(ret, idx), depth-1, map[ssa.Value]bool{})
 				if u != "" {
 					return nil, false, u
 				}
